@@ -361,7 +361,7 @@ PRIMS = {
 
 def hints(ctx, cfg, fs):
     for rx, (nm, pats) in PRIMS.items():
-        b = ctx.look(fs.one(rx))
+        b = ctx.look(fs.host(rx, r'State>::take_positional_word$') if nm == 'parse_pos_word' else fs.one(rx))
         hint_blocks = [c.bb for c in b.calls() if c.is_(*pats)]
         errs = err_return_blocks(b)
         # plus errors returned by re-propagating (e.g. `Err(err)` from take_arg)
